@@ -291,6 +291,11 @@ pub fn gen_plan(rng: &mut Rng, prof: &Profile, thorough: bool) -> Plan {
                 _ => Some(honest_total),
             };
             let forward = if declared_total.is_none() && n_parts == 1 { Some(honest_total) } else { Some(*am) };
+            // an incoming HTLC usually carries a little more than the onion says to forward
+            let forward = match forward {
+                Some(f) if rng.chance(1, 4) => Some(f.saturating_sub(1 + rng.below(2000))),
+                f => f,
+            };
             let forward = if rng.chance(1, 60) { None } else { forward };
             // conflicting invoice / amount for the same hash
             let (m_inv, m_amt) = if k > 0 && matches!(prof, Profile::Reject | Profile::Mixed) && rng.chance(1, 6) {
